@@ -452,58 +452,63 @@ def rule_sc_shape(repo: Repo, rep: Report) -> int:
     # encoder butterfly: XOR of the paired positions
     pt = repo.func(PE, "PolarCodeEncoder.polar_transform")
     body = statement_texts(pt)
-    rep.expect("x[:, self.mask_dict[i]] = torch.bitwise_xor(x[:, self.mask_dict[i]], x[:, self.mask_dict[i] + add_k])" in body and "add_k = N // 2 ** (i_back + 1)" in body and "i_back = self.m - i - 1" in body, "SC-SHAPE", pt, "butterfly: x[mask_i] ^= x[mask_i + N / 2^(i_back+1)] for the m stages", "XOR network of the transform", "butterfly step changed")
-    n += 1
-    # interleaved variant: after stage i every block of 2^(i+1) positions is perfectly shuffled (first half to the even,
-    # second half to the odd places) - the inverse of the decoder's even/odd split.  The index expression is evaluated
-    # with the checker's own arithmetic for N = 8, 16.
-    from ..astutil import ancestors, set_parents
-    from ..constfold import Unfoldable
-    from ..ndlist import ND, eval_shuffle
-
-    set_parents(pt.node)
-    loop = next((l for l in pt.body if isinstance(l, ast.For) and unparse(l.iter) == "range(self.m)"), None)
-    shuf = [s_ for s_ in ast.walk(loop) if isinstance(s_, ast.Assign) and isinstance(s_.targets[0], ast.Name) and s_.targets[0].id == "x" and any(isinstance(a_, ast.If) and unparse(a_.test) == "self.polar_i" for a_ in ancestors(s_))] if loop is not None else []
-    if len(shuf) != 1:
-        rep.undecided("SC-SHAPE", pt, "interleaver step under `if self.polar_i`", f"{len(shuf)} assignments to x found")
+    tab_ = polar_transform_tabulated(repo)
+    if tab_[0] == OK:
+        # the stage-wise shapes are spellings: the composite map is tabulated (KERNEL) for both variants
+        rep.ok("SC-SHAPE", pt, "butterfly and interleaver stages of polar_transform", "their composition is tabulated against u F^(x)m / its bit-reversed form for N = 2 .. 32 (rule KERNEL)", nontrivial=False)
+        n += 2
     else:
-        st_ = shuf[0]
-        loc = {a_.targets[0].id: a_.value for a_ in loop.body if isinstance(a_, ast.Assign) and isinstance(a_.targets[0], ast.Name)}
-        bad = None
-        try:
-            for m_ in (3, 4):
-                N_ = 2**m_
-                for i_ in range(m_):
-                    names = {"N": N_, "i": i_, "bs": 1}
-                    attrs = {"self.m": m_, "self.code_length": N_}
-                    from ..constfold import Folder
+        rep.expect("x[:, self.mask_dict[i]] = torch.bitwise_xor(x[:, self.mask_dict[i]], x[:, self.mask_dict[i] + add_k])" in body and "add_k = N // 2 ** (i_back + 1)" in body and "i_back = self.m - i - 1" in body, "SC-SHAPE", pt, "butterfly: x[mask_i] ^= x[mask_i + N / 2^(i_back+1)] for the m stages", "XOR network of the transform", "butterfly step changed")
+        n += 1
+        # interleaved variant: after stage i every block of 2^(i+1) positions is perfectly shuffled (first half to the even,
+        # second half to the odd places) - the inverse of the decoder's even/odd split.  The index expression is evaluated
+        # with the checker's own arithmetic for N = 8, 16.
+        from ..constfold import Unfoldable
+        from ..ndlist import ND, eval_shuffle
 
-                    for nm_ in ("i_back", "add_k"):
-                        if nm_ in loc:
-                            names[nm_] = Folder(names, attrs).fold(loc[nm_])
-                    v_ = st_.value
-                    mm = match(v_, "x[:, _P]")
-                    if mm is not None:
-                        pexpr = loc.get(mm["_P"].id, mm["_P"]) if isinstance(mm["_P"], ast.Name) else mm["_P"]
-                        perm = eval_shuffle(pexpr, names, attrs, {}).reshape([-1]).data
-                        out = [perm[p_] for p_ in range(N_)]  # out[p] = in[perm[p]]
-                    else:
-                        out = eval_shuffle(v_, names, attrs, {"x": ND([1, N_], list(range(N_)))}).reshape([-1]).data
-                    B = 2 ** (i_ + 1)
-                    want = [b_ * B + h_ * (B // 2) + j_ for b_ in range(N_ // B) for j_ in range(B // 2) for h_ in (0, 1)]
-                    if out != want:
-                        bad = (N_, i_, out, want)
-                        break
-                if bad:
-                    break
-        except (Unfoldable, KeyError, IndexError, ValueError) as exc:
-            rep.undecided("SC-SHAPE", pt, f"interleaver step: {unparse(st_)[:90]}", f"index shuffle not evaluable ({exc})", node=st_)
+        set_parents(pt.node)
+        loop = next((l for l in pt.body if isinstance(l, ast.For) and unparse(l.iter) == "range(self.m)"), None)
+        shuf = [s_ for s_ in ast.walk(loop) if isinstance(s_, ast.Assign) and isinstance(s_.targets[0], ast.Name) and s_.targets[0].id == "x" and any(isinstance(a_, ast.If) and unparse(a_.test) == "self.polar_i" for a_ in ancestors(s_))] if loop is not None else []
+        if len(shuf) != 1:
+            rep.undecided("SC-SHAPE", pt, "interleaver step under `if self.polar_i`", f"{len(shuf)} assignments to x found")
         else:
-            if bad:
-                rep.violation("SC-SHAPE", pt, f"interleaver step: {unparse(st_)[:90]}", f"for N = {bad[0]}, stage {bad[1]} the positions come out as {bad[2]} instead of the perfect shuffle {bad[3]} of each block: the interleaved transform is no longer the one the decoder's even/odd split inverts (messages are not recovered for N >= 8 with polar_i=True)", node=st_)
+            st_ = shuf[0]
+            loc = {a_.targets[0].id: a_.value for a_ in loop.body if isinstance(a_, ast.Assign) and isinstance(a_.targets[0], ast.Name)}
+            bad = None
+            try:
+                for m_ in (3, 4):
+                    N_ = 2**m_
+                    for i_ in range(m_):
+                        names = {"N": N_, "i": i_, "bs": 1}
+                        attrs = {"self.m": m_, "self.code_length": N_}
+                        from ..constfold import Folder
+
+                        for nm_ in ("i_back", "add_k"):
+                            if nm_ in loc:
+                                names[nm_] = Folder(names, attrs).fold(loc[nm_])
+                        v_ = st_.value
+                        mm = match(v_, "x[:, _P]")
+                        if mm is not None:
+                            pexpr = loc.get(mm["_P"].id, mm["_P"]) if isinstance(mm["_P"], ast.Name) else mm["_P"]
+                            perm = eval_shuffle(pexpr, names, attrs, {}).reshape([-1]).data
+                            out = [perm[p_] for p_ in range(N_)]  # out[p] = in[perm[p]]
+                        else:
+                            out = eval_shuffle(v_, names, attrs, {"x": ND([1, N_], list(range(N_)))}).reshape([-1]).data
+                        B = 2 ** (i_ + 1)
+                        want = [b_ * B + h_ * (B // 2) + j_ for b_ in range(N_ // B) for j_ in range(B // 2) for h_ in (0, 1)]
+                        if out != want:
+                            bad = (N_, i_, out, want)
+                            break
+                    if bad:
+                        break
+            except (Unfoldable, KeyError, IndexError, ValueError) as exc:
+                rep.undecided("SC-SHAPE", pt, f"interleaver step: {unparse(st_)[:90]}", f"index shuffle not evaluable ({exc})", node=st_)
             else:
-                rep.ok("SC-SHAPE", pt, f"interleaver step: {unparse(st_)[:90]}", "perfect shuffle of every block of 2^(i+1) positions at stage i (evaluated for N = 8, 16)", node=st_)
-    n += 1
+                if bad:
+                    rep.violation("SC-SHAPE", pt, f"interleaver step: {unparse(st_)[:90]}", f"for N = {bad[0]}, stage {bad[1]} the positions come out as {bad[2]} instead of the perfect shuffle {bad[3]} of each block: the interleaved transform is no longer the one the decoder's even/odd split inverts (messages are not recovered for N >= 8 with polar_i=True)", node=st_)
+                else:
+                    rep.ok("SC-SHAPE", pt, f"interleaver step: {unparse(st_)[:90]}", "perfect shuffle of every block of 2^(i+1) positions at stage i (evaluated for N = 8, 16)", node=st_)
+        n += 1
     # successive cancellation decides position by position: decode_recursive has no exit besides the length-1 leaf and
     # the recombination; a block may not be declared frozen from ONE entry of its mask
     rets = [r for r in ast.walk(dr.node) if isinstance(r, ast.Return)]
@@ -697,7 +702,16 @@ def rule_bp_polar_answers(repo: Repo, rep: Report, rule: str = "BP-ANSWERS") -> 
     return n
 
 
+_PT_CACHE = {}
+
+
 def polar_transform_tabulated(repo: Repo):
+    if id(repo) not in _PT_CACHE:
+        _PT_CACHE[id(repo)] = _polar_transform_tabulated(repo)
+    return _PT_CACHE[id(repo)]
+
+
+def _polar_transform_tabulated(repo: Repo):
     """PolarCodeEncoder.polar_transform (with the module's index helper inlined) evaluated on every unit vector and on a few
     sums of unit vectors for N = 2 .. 32, both variants: the rows must be those of the Kronecker power F^(x)m of
     F = [[1, 0], [1, 1]], with the columns in bit-reversed order for the interleaved variant (G_N = B_N F^(x)m)."""
